@@ -116,11 +116,11 @@ Section GenericNttNoswap.
     - (* a single element: no butterflies *)
       assert (Ep : powers_bitreversed sops (2 ^ 0) 0 omega = Some [fzero sops]) by reflexivity.
       rewrite Ep. cbn [Nat.pow ns_loop Nat.ltb Nat.leb].
-      eexists. split; [reflexivity|]. split; [exact Hok|]. split; [reflexivity|].
-      cbn [brev]. symmetry.
-      apply (stages_brev_dft fk 0 (hS omega) (map hF x)); [rewrite map_length; exact Hx|exact I].
+      eexists. split; [reflexivity|]. split; [exact Hok|]. split; [exact Hx|].
+      cbn [brev].
+      exact (stages_brev_dft fk 0 (hS omega) (map hF x) ltac:(rewrite map_length; exact Hx) I).
     - change (2 ^ S l1)%nat with (2 * 2 ^ l1)%nat at 1 2.
-      rewrite (powers_bitreversed_spec sops l1 omega).
+      rewrite (powers_bitreversed_spec sops (fun _ => omega) l1 omega).
       set (powers := map (pw_entry sops l1 omega (2 ^ l1)) (seq 0 (2 * 2 ^ l1))).
       assert (Lp : length powers = (2 ^ S l1)%nat) by (unfold powers; rewrite map_length, seq_length; reflexivity).
       destruct (ns_loop_P ops act (S l1) 0 (S (2 ^ S l1)) powers x) as [E1 E2];
@@ -129,9 +129,9 @@ Section GenericNttNoswap.
       change (2 * 2 ^ l1)%nat with (2 ^ S l1)%nat. rewrite E1.
       destruct (nsP_hom sops ops act fk okS okF hS hF H (S l1) 1 (2 ^ S l1) powers x (powers_ok l1 omega Hom) Hok)
         as [O1 O2].
-      eexists. split; [reflexivity|]. split; [exact O1|]. split; [exact E2|].
+      eexists. split; [reflexivity|]. split; [exact O1|]. split; [rewrite E2; exact Hx|].
       rewrite O2. apply (nsP_brev_dft fk l1 (hS omega) Hw); [rewrite map_length; exact Hx|].
-      intros m Hm. rewrite firstn_map. unfold powers. rewrite (powers_firstn sops l1 omega m Hm), map_map.
+      intros m Hm. rewrite firstn_map. unfold powers. rewrite (powers_firstn sops (fun _ => omega) l1 omega m Hm), map_map.
       apply map_ext. intros j. unfold zfK.
       apply (pw_hom sops ops act fk okS okF hS hF H). exact Hom.
   Qed.
@@ -192,3 +192,35 @@ Proof.
     + rewrite R1, D1, X1. exact M1.
     + rewrite R2, D2, X2. exact M2.
 Qed.
+
+(* ------------------------------------------------------------------ documented panics / degenerate lengths *)
+Lemma root_none_not_pow2 n : (n <> 0)%nat -> (forall l, n <> (2 ^ l)%nat) -> primitive_root_of_unity (Z.of_nat n) = None.
+Proof.
+  intros H0 Hp. destruct (primitive_root_of_unity (Z.of_nat n)) eqn:E; [|reflexivity]. exfalso.
+  assert (Hne : primitive_root_of_unity (Z.of_nat n) <> None) by (rewrite E; discriminate).
+  apply root_defined_iff in Hne. destruct Hne as [Hz|[k [_ Hk]]]; [lia|].
+  apply (Hp k). rewrite <- Z_of_nat_pow2 in Hk. lia.
+Qed.
+Theorem noswap_panics_not_pow2 {F} (ops : fops F) (act : fact Z F) dbg x :
+  length x <> 0%nat -> (forall l, length x <> (2 ^ l)%nat) ->
+  ntt_noswap bfe_ops ops act dbg x = None /\ intt_noswap bfe_ops ops act dbg x = None.
+Proof.
+  intros H0 Hp. unfold ntt_noswap, intt_noswap.
+  destruct (dbg && negb (is_pow2 (Z.of_nat (length x)))); [split; reflexivity|].
+  cbn [froot bfe_ops]. rewrite (root_none_not_pow2 _ H0 Hp). split; reflexivity.
+Qed.
+Lemma noswap_nil :
+  ntt_noswap_b false [] = Some [] /\ intt_noswap_b false [] = Some [] /\
+  ntt_noswap_b true [] = None /\ intt_noswap_b true [] = None /\
+  ntt_noswap_x false [] = Some [] /\ intt_noswap_x false [] = Some [] /\
+  ntt_noswap_x true [] = None /\ intt_noswap_x true [] = None.
+Proof. repeat split; reflexivity. Qed.
+
+(* ------------------------------------------------------------------ any root *)
+(* the butterfly network with ANY element omega whose 2^(l-1)-th power is -1 (i.e. any primitive 2^l-th root of
+   unity) computes the DFT with respect to that omega: nothing depends on which primitive root the table holds *)
+Theorem ntt_unchecked_b_any_root l x omega : (l <= 32)%nat -> length x = (2 ^ l)%nat -> Forall canon x -> canon omega ->
+  half_root fp_field (bden omega) l ->
+  exists y, ntt_unchecked bfe_ops bfe_ops bb_act x omega l = Some y /\ Forall canon y /\ length y = length x /\
+            map bden y = dft fp_field (bden omega) (map bden x).
+Proof. exact (ntt_unchecked_dft bfe_ops bfe_ops bb_act fp_field canon canon bden bden bb_hom l x omega). Qed.
